@@ -125,6 +125,24 @@ Definition chk_chain (C : devinfo_code) (c : chain_case) : bool * bool :=
   (list_eqb obs_eqb os (cc_obs c) && obs_end_eqb e (cc_end c),
    prop_chain (cc_ids c) (cc_code c) (cc_oid c) (cc_obs c) (cc_end c)).
 
+(* ================================================================== configuration histories *)
+
+(* the map an identity holds, one entry per key (the most recent write) *)
+Definition normalize (m : list object) : list object :=
+  map (fun k => (k, id_of m k)) (nodup Z.eq_dec (map fst m)).
+
+Record cfg_case := {
+  cf_hist : list cfg_op; cf_code : Z; cf_oid : Z; cf_limit : nat;
+  cf_obs : list obs; cf_end : obs_end }.
+
+(* model: the identity is what the GENERATED configuration code makes of the history;
+   property: the expected objects come from the spec-side final map (last write per id wins,
+   a blank value withdraws the object) *)
+Definition chk_cfg (C : devinfo_code) (c : cfg_case) : bool * bool :=
+  let '(os, e) := model_history C (id_of (configured C (cf_hist c))) (cf_code c) (cf_oid c) (cf_limit c) in
+  (list_eqb obs_eqb os (cf_obs c) && obs_end_eqb e (cf_end c),
+   prop_chain (normalize (spec_configured (cf_hist c))) (cf_code c) (cf_oid c) (cf_obs c) (cf_end c)).
+
 (* ================================================================== multi-item / text values *)
 From PM.theories Require Import DevInfoMulti.
 
